@@ -37,7 +37,7 @@ ASSUMPTIONS = [
     "'the end marker' = EI followed by a byte for which bytes.isspace() is true; inline data is written as ID<space>data<LF>EI<LF> and does not end in CR",
     "export formats limited to those that do not need Pillow (DCT pass-through, 1-bit / 8-bit gray / 8-bit RGB bitmaps)",
 ]
-PROBES = ["same XObject drawn twice", "inline image ending at the ASCII85 marker", "inline image", "xobject image", "gray8", "rgb8", "1bit", "dct", "filter chain", "unfiltered", "row padding needed", "boundary placed in inline markers", "contents split after image", "inline data contains EI", "preexisting export name", "two images same name", "bmp exported", "jpg exported"]
+PROBES = ["dct behind further filters", "same XObject drawn twice", "inline image ending at the ASCII85 marker", "inline image", "xobject image", "gray8", "rgb8", "1bit", "dct", "filter chain", "unfiltered", "row padding needed", "boundary placed in inline markers", "contents split after image", "inline data contains EI", "preexisting export name", "two images same name", "bmp exported", "jpg exported"]
 TIERS = {
     "quick": {"batches": 16, "runs": 450, "budget_s": 50},
     "thorough": {"batches": 128, "runs": 500, "budget_s": 1200},
@@ -80,6 +80,14 @@ def gen_image(t, ctx, idx):
         samples = b"\xff\xd8\xff\xe0" + bytes(t.draw(256, "jpg.b") for _ in range(t.rint(4, 60, "jpg.n"))) + b"\xff\xd9"
         chain = ["DCTDecode"]
         data = samples
+        if t.coin(35, 100, "dct.outer"):
+            # the JPEG data behind further filters: [/A85 /DCT], [/Fl /DCT] ...
+            outer = [t.pick(["ASCII85Decode", "FlateDecode", "ASCIIHexDecode"], "dct.outer.f") for _ in range(t.rint(1, 2, "dct.outer.n"))]
+            if not inline or outer[0] != "ASCII85Decode":
+                for f in reversed(outer):
+                    data = encoders.ENCODERS[f](data, t)
+                chain = outer + ["DCTDecode"]
+                ctx.probe("dct behind further filters")
     else:
         mode = t.draw(4, "px.mode")
         if mode == 0:
@@ -355,7 +363,7 @@ def run(tape, ctx, item=None):
             for i, nm in enumerate(names):
                 if nm is not None and t.coin(40, 100, "pre"):
                     ext = ".jpg" if images[i]["kind"] == "dct" else ".bmp"
-                    for suffix in ("", ".0")[: t.rint(1, 2, "pre.n")]:
+                    for suffix in t.pick([("",), ("", ".0"), ("", ".1"), ("", ".0", ".2"), (".0",)], "pre.set"):
                         p = sc.write(os.path.join("out", nm + suffix + ext), b"pre-existing")
                         pre[p] = b"pre-existing"
                         ctx.probe("preexisting export name")
